@@ -152,6 +152,38 @@ func init() {
 	specFuncs["isTMR"] = func(e *Exec, env *Env, args []Val) (Val, error) {
 		return Val{T: tBool, Term: e.errPred("isTMR", args[0].Term)}, nil
 	}
+	// fmt.Sprintf with a constant format made of %s / %v verbs over string-like arguments: exact concatenation
+	specTable["fmt.Sprintf"] = func(e *Exec, cc *callCtx) Val {
+		if t, ok := e.sprintfConcat(cc); ok {
+			return Val{T: cc.resT, Term: e.define(cc.f.prefix+"sprintf", "String", t)}
+		}
+		e.assumes["default-pure:fmt.Sprintf"] = true
+		return e.uninterp("ext_fmt.Sprintf", cc.args, cc.resT)
+	}
+	specFuncs["closed"] = func(e *Exec, env *Env, args []Val) (Val, error) {
+		return Val{T: tBool, Term: Select(e.comp(env.cur, "CLOSED", "(Array Int Bool)"), args[0].Term)}, nil
+	}
+	specFuncs["locked"] = func(e *Exec, env *Env, args []Val) (Val, error) {
+		return Val{T: tBool, Term: Select(e.comp(env.cur, "LOCKED", "(Array Int Bool)"), e.lockKey(args[0]))}, nil
+	}
+	for _, m := range []string{"Lock", "RLock"} {
+		for _, t := range []string{"Mutex", "RWMutex"} {
+			specTable["(*sync."+t+")."+m] = func(e *Exec, cc *callCtx) Val {
+				c := e.comp(cc.st, "LOCKED", "(Array Int Bool)")
+				e.setComp(cc.st, "LOCKED", "(Array Int Bool)", Store(c, e.lockKey(cc.args[0]), "true"))
+				return Val{T: cc.resT, Term: "0"}
+			}
+		}
+	}
+	for _, m := range []string{"Unlock", "RUnlock"} {
+		for _, t := range []string{"Mutex", "RWMutex"} {
+			specTable["(*sync."+t+")."+m] = func(e *Exec, cc *callCtx) Val {
+				c := e.comp(cc.st, "LOCKED", "(Array Int Bool)")
+				e.setComp(cc.st, "LOCKED", "(Array Int Bool)", Store(c, e.lockKey(cc.args[0]), "false"))
+				return Val{T: cc.resT, Term: "0"}
+			}
+		}
+	}
 	specTable["errors.New"] = func(e *Exec, cc *callCtx) Val {
 		v := e.fresh(cc.f.prefix+"errnew", "Any")
 		e.assume(Not(Eq(v, "nil_any")), "errors.New returns a non-nil error")
@@ -222,6 +254,64 @@ func init() {
 		v := e.uninterp("ext_dynamic.Interface.Resource", cc.args, cc.resT)
 		e.assume(Not(Eq(v.Term, "nil_any")), "dynamic.Interface.Resource returns a client")
 		return v
+	}
+	specTable["net/http.NewRequest"] = func(e *Exec, cc *callCtx) Val {
+		v := e.havocVal(cc.resT, cc.f.prefix+"newRequest")
+		e.refBoundNew(cc.st, v)
+		req := v.Tup[0]
+		el := deref(req.T)
+		si := e.reg.structOf(el)
+		n, so := e.heapName(el)
+		cell := Select(e.comp(cc.st, n, so), req.Term)
+		hdr := "0"
+		for i := 0; i < si.st.NumFields(); i++ {
+			if si.st.Field(i).Name() == "Header" {
+				hdr = app(si.fields[i], cell)
+			}
+		}
+		e.assume(Or(And(Eq(v.Tup[1].Term, "nil_any"), app(">", req.Term, e.compInit[allocComp]), Not(Eq(hdr, "0"))), And(Not(Eq(v.Tup[1].Term, "nil_any")), Eq(req.Term, "0"))), "http.NewRequest returns a request with a header map, or an error")
+		return v
+	}
+	specTable["(metacontroller/pkg/hooks.HttpClientInterface).Do"] = func(e *Exec, cc *callCtx) Val {
+		v := e.havocVal(cc.resT, cc.f.prefix+"httpDo")
+		e.refBoundNew(cc.st, v)
+		resp := v.Tup[0]
+		el := deref(resp.T)
+		si := e.reg.structOf(el)
+		n, so := e.heapName(el)
+		cell := Select(e.comp(cc.st, n, so), resp.Term)
+		var facts []Term
+		for i := 0; i < si.st.NumFields(); i++ {
+			switch si.st.Field(i).Name() {
+			case "Body":
+				facts = append(facts, Not(Eq(app(si.fields[i], cell), "nil_any")))
+			case "Header":
+				facts = append(facts, Not(Eq(app(si.fields[i], cell), "0")))
+			}
+		}
+		e.assume(Or(And(Eq(v.Tup[1].Term, "nil_any"), Not(Eq(resp.Term, "0")), And(facts...)), And(Not(Eq(v.Tup[1].Term, "nil_any")), Eq(resp.Term, "0"))), "an HTTP client returns a response with a body, or an error")
+		return v
+	}
+	// constructors of dependencies that never return nil
+	for _, k := range []string{
+		"k8s.io/client-go/tools/cache.NewSharedIndexInformer",
+		"k8s.io/client-go/dynamic/dynamiclister.New",
+		"(k8s.io/client-go/tools/cache.SharedIndexInformer).GetIndexer",
+		"k8s.io/client-go/util/workqueue.NewTypedRateLimitingQueueWithConfig[any]",
+		"k8s.io/client-go/util/workqueue.DefaultTypedControllerRateLimiter[any]",
+		"(github.com/go-logr/logr.Logger).WithName",
+		"time.NewTicker",
+	} {
+		k := k
+		specTable[k] = func(e *Exec, cc *callCtx) Val {
+			v := e.uninterp("ext_"+cleanSym(funcKeyStr(k)), cc.args, cc.resT)
+			if e.reg.sortOf(cc.resT) == "Any" {
+				e.assume(Not(Eq(v.Term, "nil_any")), k+" does not return nil")
+			} else if isRefLike(cc.resT) {
+				e.assume(app(">", v.Term, "0"), k+" does not return nil")
+			}
+			return v
+		}
 	}
 	specTable["reflect.DeepEqual"] = func(e *Exec, cc *callCtx) Val {
 		return Val{T: cc.resT, Term: e.define(cc.f.prefix+"deq", "Bool", e.deepEqualAny(cc.args[0].Term, cc.args[1].Term))}
@@ -370,4 +460,116 @@ func (e *Exec) apiRequest(cc *callCtx, verb string) Val {
 		}
 	}
 	return out
+}
+
+// lockKey: a mutex embedded in a struct is identified by the reference of that struct.
+func (e *Exec) lockKey(v Val) Term {
+	if v.Addr != nil {
+		return v.Addr.Ref
+	}
+	return e.asTerm(v)
+}
+
+// sprintfConcat: the exact result of fmt.Sprintf for "%s"-style formats over string-like arguments.
+func (e *Exec) sprintfConcat(cc *callCtx) (Term, bool) {
+	c, ok := cc.common.Args[0].(*ssa.Const)
+	if !ok || c.Value == nil || c.Value.Kind() != constant.String {
+		return "", false
+	}
+	format := constant.StringVal(c.Value)
+	// collect the packed variadic arguments in order
+	var vals []ssa.Value
+	if len(cc.common.Args) > 1 {
+		sl, ok := cc.common.Args[1].(*ssa.Slice)
+		if !ok {
+			if cst, isC := cc.common.Args[1].(*ssa.Const); isC && cst.Value == nil {
+				vals = nil
+			} else {
+				return "", false
+			}
+		} else {
+			al, ok := sl.X.(*ssa.Alloc)
+			if !ok {
+				return "", false
+			}
+			arr, ok := unalias(deref(al.Type())).Underlying().(*types.Array)
+			if !ok {
+				return "", false
+			}
+			vals = make([]ssa.Value, arr.Len())
+			for _, ref := range *al.Referrers() {
+				ia, ok := ref.(*ssa.IndexAddr)
+				if !ok {
+					continue
+				}
+				idx, ok := ia.Index.(*ssa.Const)
+				if !ok {
+					return "", false
+				}
+				i := int(idx.Int64())
+				for _, r2 := range *ia.Referrers() {
+					if st, ok := r2.(*ssa.Store); ok {
+						vals[i] = st.Val
+					}
+				}
+			}
+		}
+	}
+	var parts []Term
+	lit := ""
+	ai := 0
+	for i := 0; i < len(format); i++ {
+		if format[i] != '%' {
+			lit += string(format[i])
+			continue
+		}
+		if i+1 >= len(format) {
+			return "", false
+		}
+		i++
+		switch format[i] {
+		case '%':
+			lit += "%"
+		case 's', 'v':
+			if ai >= len(vals) || vals[ai] == nil {
+				return "", false
+			}
+			v := vals[ai]
+			ai++
+			if mi, ok := v.(*ssa.MakeInterface); ok {
+				v = mi.X
+			}
+			if e.reg.sortOf(v.Type()) != "String" {
+				return "", false
+			}
+			sv, ok := cc.f.vals[v]
+			if !ok {
+				if cv, isC := v.(*ssa.Const); isC {
+					sv = e.constVal(cv)
+				} else {
+					return "", false
+				}
+			}
+			if lit != "" {
+				parts = append(parts, StrLit(lit))
+				lit = ""
+			}
+			parts = append(parts, sv.Term)
+		default:
+			return "", false
+		}
+	}
+	if lit != "" {
+		parts = append(parts, StrLit(lit))
+	}
+	if ai != len(vals) {
+		return "", false
+	}
+	switch len(parts) {
+	case 0:
+		return `""`, true
+	case 1:
+		return parts[0], true
+	}
+	return app("str.++", parts...), true
 }
